@@ -313,6 +313,7 @@ func (l *e7lru) evict() {
 
 func (l *e7lru) GoodE7add(k uint16) {
 	if e, ok := l.index[k]; ok {
+		e.Value = k
 		l.order.MoveToFront(e)
 		return
 	}
@@ -320,6 +321,15 @@ func (l *e7lru) GoodE7add(k uint16) {
 	if l.order.Len() > l.size {
 		l.evict()
 	}
+}
+
+// BadE7get: a lookup that refreshes what it found — the list is no longer in the order of insertion.
+func (l *e7lru) BadE7get(k uint16) bool {
+	e, ok := l.index[k]
+	if ok {
+		l.order.MoveToFront(e)
+	}
+	return ok
 }
 
 func (l *e7lru) BadE7add(k uint16) {
@@ -1384,4 +1394,169 @@ func (g *BadY3jb) Close() error {
 	g.buf.Clear()
 	clear(g.attrs)
 	return nil
+}
+
+// ---- I1 (one counter for the whole transport) ------------------------------------------------------------------------------------------
+
+type BadI1table struct {
+	interceptor.NoOp
+	next [256]uint32
+}
+
+func (g *BadI1table) BindLocalStream(info *interceptor.StreamInfo, w interceptor.RTPWriter) interceptor.RTPWriter {
+	var id uint8
+	for _, e := range info.RTPHeaderExtensions {
+		if e.URI == fxTransportCCURI {
+			id = uint8(e.ID)
+			break
+		}
+	}
+	if id == 0 {
+		return w
+	}
+	ctr := &g.next[id]
+	return interceptor.RTPWriterFunc(func(h *rtp.Header, p []byte, a interceptor.Attributes) (int, error) {
+		seq := atomic.AddUint32(ctr, 1) - 1
+		if err := h.SetExtension(id, []byte{byte(seq >> 8), byte(seq)}); err != nil {
+			return 0, err
+		}
+		return w.Write(h, p, a)
+	})
+}
+
+// ---- Z2: whoever is sent to listens in every state -----------------------------------------------------------------------------------
+
+type GoodZ2svc struct {
+	done   chan struct{}
+	pkts   chan int
+	unbind chan uint32
+}
+
+func (s *GoodZ2svc) Push(v int) {
+	select {
+	case <-s.done:
+	case s.pkts <- v:
+	}
+}
+
+func (s *GoodZ2svc) Unbind(ssrc uint32) {
+	select {
+	case <-s.done:
+	case s.unbind <- ssrc:
+	}
+}
+
+func (s *GoodZ2svc) loop() {
+	select {
+	case <-s.done:
+		return
+	case <-s.pkts:
+	case <-s.unbind:
+	}
+	for {
+		select {
+		case <-s.done:
+			return
+		case <-s.pkts:
+		case <-s.unbind:
+		}
+	}
+}
+
+type BadZ2svc struct {
+	done   chan struct{}
+	pkts   chan int
+	unbind chan uint32
+}
+
+func (s *BadZ2svc) Push(v int) {
+	select {
+	case <-s.done:
+	case s.pkts <- v:
+	}
+}
+
+func (s *BadZ2svc) Unbind(ssrc uint32) {
+	select {
+	case <-s.done:
+	case s.unbind <- ssrc:
+	}
+}
+
+func (s *BadZ2svc) loop() {
+	select {
+	case <-s.done:
+		return
+	case <-s.pkts:
+	}
+	for {
+		select {
+		case <-s.done:
+			return
+		case <-s.pkts:
+		case <-s.unbind:
+		}
+	}
+}
+
+// ---- E8: nothing is left below the cursor ---------------------------------------------------------------------------------------------
+
+type GoodE8log struct {
+	init bool
+	next int64
+	last int64
+	log  map[int64]int
+}
+
+func (l *GoodE8log) add(seq int64, v int) {
+	if !l.init {
+		l.init = true
+		l.next = seq
+	}
+	if seq < l.next {
+		return
+	}
+	l.log[seq] = v
+	if seq > l.last {
+		l.last = seq
+	}
+}
+
+func (l *GoodE8log) cap(max int64) {
+	if l.last-l.next+1 > max {
+		newNext := l.last - max + 1
+		for seq := range l.log {
+			if seq < newNext {
+				delete(l.log, seq)
+			}
+		}
+		l.next = newNext
+	}
+}
+
+type BadE8log struct {
+	init bool
+	next int64
+	last int64
+	log  map[int64]int
+}
+
+func (l *BadE8log) add(seq int64, v int) {
+	if !l.init {
+		l.init = true
+		l.next = seq
+	}
+	if seq < l.next {
+		return
+	}
+	l.log[seq] = v
+	if seq > l.last {
+		l.last = seq
+	}
+}
+
+func (l *BadE8log) cap(max int64) {
+	if l.last-l.next+1 > max {
+		l.next = l.last - max + 1
+	}
 }
